@@ -20,6 +20,12 @@ KNOWN_DECLS = {}   # name -> Coq element type of the exception lists in gen/Know
 for f in sorted(glob.glob(os.path.join(HERE, "cfg", "C*.json"))):
     pid = os.path.basename(f)[:-5]
     c = json.load(open(f))
+    root = os.path.dirname(HERE)
+    # a property is claimed only once its statement file, case checker and harness exist
+    if not (os.path.exists(os.path.join(root, "coq", "props", pid + ".v"))
+            and os.path.exists(os.path.join(root, "coq", "theories", "Corr", pid + ".v"))
+            and os.path.isdir(os.path.join(root, "harness", "cmd", c.get("cmd", "?")))):
+        continue
     PROPS[pid] = c
     KNOWN_DECLS.update(c.get("known_decls", {}))
 
